@@ -172,7 +172,7 @@ def scenario_traces(ctx, plan):
     for name in plan.scenarios:
         steps = tm_scenarios.ALL[name]()
         ov = tm_scenarios.CFG.get(name)
-        cfg = base if not ov else tm.Cfg('scen-n4-' + name[:12], [1, 1, 1, 1], [4], max_round=ov.get('max_round', 3), max_height=1,
+        cfg = base if not ov else tm.Cfg('scen-n4-' + name[:12], [1, 1, 1, 1], [4], max_round=ov.get('max_round', 3), max_height=ov.get('max_height', 1),
                                          nbyz=1, budget=-1, own_first=False, useful_only=False,
                                          crashes=ov.get('crashes', 0), crash_set=ov.get('crash_set', ()))
         d = tempfile.mkdtemp(prefix='vscen-')
